@@ -213,7 +213,7 @@ def phased_failure_family(run):
             try:
                 open(os.path.join(d, 'jugfile.py'), 'w').write(PHASED % {'phase': phase})
                 args = ['execute', '--will-cite', '--keep-going', '--nr-wait-cycles', '2', '--wait-cycle-time', '0'] + (['--keep-failed'] if kf else []) + ['jugfile.py']
-                r = jug_cli(args, d)
+                r = jug_cli(args, d, timeout=60)
                 calls = [l.split() for l in open(os.path.join(d, 'calls.log')).read().split('\n') if l.strip()] if os.path.exists(os.path.join(d, 'calls.log')) else []
                 ran = sorted(int(c[1]) for c in calls if c[0] == 'ok')
                 booms = len([c for c in calls if c[0] == 'boom'])
@@ -223,6 +223,10 @@ def phased_failure_family(run):
                 desc = '`jug execute --keep-going%s` on a jugfile whose task f fails before a %s' % (' --keep-failed' if kf else '', label)
                 run.case(('phased-failure', label, kf), nontrivial=True)
                 run.count('phased_failure_runs')
+                if r.returncode == 124:
+                    run.fail('execute-does-not-end', '%s: the command did not come to an end within a minute (--nr-wait-cycles 2 --wait-cycle-time 0; the failing task was started %d times)'
+                             % (desc, booms), rp)
+                    continue
                 if r.returncode == 0:
                     run.fail('exit-zero-after-failure', '%s: exit status 0 although a task raised (output: %s)' % (desc, r.stdout.strip()[-200:]), rp)
                 if 3 in ran:
